@@ -136,7 +136,10 @@ def in_domain(case):
 
 def strategy(tier):
     ks = st.integers(1, 12)
-    obl = st.one_of(st.floats(0.0, math.pi), st.floats(0.0, math.pi), st.floats(0.0, math.pi),
+    # uniform by construction: st.floats / wide st.integers favour 0 and tiny values; <= 24-bit bounded integers are uniform
+    uni = st.tuples(st.integers(0, 2 ** 24 - 1), st.integers(0, 2 ** 24 - 1)).map(
+        lambda kk: math.pi * ((kk[0] + kk[1] / 2.0 ** 24) / 2.0 ** 24))
+    obl = st.one_of(uni, uni, uni, uni, st.floats(0.0, math.pi),
                     st.sampled_from([0.0, math.pi, math.pi / 2]),
                     ks.map(lambda k: 10.0 ** -k), ks.map(lambda k: math.pi - 10.0 ** -k))
     if tier == 'quick':
@@ -191,6 +194,21 @@ def warm():
         b(0.3)
     from TidalPy.tides.universal_coeffs import get_universal_coeffs
     get_universal_coeffs(2)
+
+
+def _cache_safe(f, *args):
+    """Call a numba dispatcher; if numba's on-disk cache directory vanished underneath us (another harness process
+    pruned /verif/.nbcache while this one was compiling) recreate it and retry - infrastructure, not the code under test."""
+    import os
+    for attempt in range(3):
+        try:
+            return f(*args)
+        except OSError as ex:
+            from vlib.result import HarnessError
+            if 'nbcache' not in str(ex) or attempt == 2:
+                raise HarnessError('numba cache I/O failed: %s' % ex)
+            if ex.filename:
+                os.makedirs(os.path.dirname(str(ex.filename)), exist_ok=True)
 
 
 def _ulps(a, b):
@@ -273,7 +291,7 @@ def _check_coeffs(c, l):
     kaula = _oracle()
     for name, fn in (('jit', get_universal_coeffs), ('py', get_universal_coeffs.py_func)):
         with repo_call('get_universal_coeffs.%s' % name):
-            tab = {int(k): float(v) for k, v in fn(l).items()}
+            tab = {int(k): float(v) for k, v in _cache_safe(fn, l).items()}
         c.check(set(tab) == set(range(l + 1)), {'clause': 'coeffs', 'l': l, 'kind': 'keys'},
                 'get_universal_coeffs(%d) keys %s' % (l, sorted(tab)))
         for m in range(l + 1):
@@ -321,14 +339,14 @@ def evaluate(case):
         where = 'calc_inclin_l%d[%s]' % (l, path)
         with repo_call(where):
             if path == 'jit_array':
-                full = _as_plain(f(arr))
-                offt = _as_plain(g(arr))
-                zero = _as_plain(f(np.zeros(1)))
+                full = _as_plain(_cache_safe(f, arr))
+                offt = _as_plain(_cache_safe(g, arr))
+                zero = _as_plain(_cache_safe(f, np.zeros(1)))
                 zero = {k: v.reshape(-1)[0] for k, v in zero.items()}
             else:
-                full = stack([_as_plain(f(x)) for x in angles])
-                offt = stack([_as_plain(g(x)) for x in angles])
-                zero = {k: float(v) for k, v in _as_plain(f(0.0)).items()}
+                full = stack([_as_plain(_cache_safe(f, x)) for x in angles])
+                offt = stack([_as_plain(_cache_safe(g, x)) for x in angles])
+                zero = {k: float(v) for k, v in _as_plain(_cache_safe(f, 0.0)).items()}
         _check_full(c, l, full, angles, (n,), where)
         _check_off(c, l, offt, zero, (n,), where)
         if path == 'py':
@@ -345,9 +363,9 @@ def evaluate(case):
             fon, foff = fon.py_func, foff.py_func
         where = 'inclination_on/off_maxl_%d[%s]' % (L, path)
         with repo_call(where):
-            ron = [fon(x) for x in angles]
-            roff = [foff(x) for x in angles]
-            rzero = fon(0.0)
+            ron = [_cache_safe(fon, x) for x in angles]
+            roff = [_cache_safe(foff, x) for x in angles]
+            rzero = _cache_safe(fon, 0.0)
             degs_on = [sorted(int(k) for k in r.keys()) for r in ron]
             degs_off = [sorted(int(k) for k in r.keys()) for r in roff]
         want = list(range(2, L + 1))
